@@ -94,6 +94,7 @@ def is_one(t):
     k = t[0]
     if k in ('PyInt', 'Int'): return t[2] == 1
     if k == 'Float': return float_value(t[3]) == 1.0
+    if k in RANGES: return shortcut(t) and is_one(t[5][1])     # (1:1) == 1 through the shortcut itself
     return False
 
 def shortcut(t):
@@ -122,6 +123,12 @@ def only_python_numbers(t):
     if k in ('Sum', 'PAdd', 'Product', 'PMul', 'Quotient', 'PDiv', 'Power', 'PPow') and t[5]:
         return all(only_python_numbers(c) for c in t[5])
     return False
+
+def ill_typed(t):
+    """a Product whose first factor is a string concatenation: LokiStringifyMapper.map_sum evaluates children[0]+1 on it,
+    which raises TypeError (str() of such a type-incorrect tree fails); never generated"""
+    if t[0] in ('Product', 'PMul') and t[5] and t[5][0][0] == 'Concat': return True
+    return any(ill_typed(c) for c in t[5])
 
 def has_unmodelled_eval(t):
     """Quotient/Power over Python numbers only (float() works but is outside the model's integer evaluation)"""
@@ -228,7 +235,7 @@ class Gen:
             kwn = []
             for _ in range(r.choice([0, 0, 1, 2])):
                 n = self.name()
-                if n not in kwn: kwn.append(n)
+                if n.lower() not in [q.lower() for q in kwn]: kwn.append(n)   # keyword names are distinct as Fortran names
             return Call(fn, args, [(n, self.expr(d)) for n in kwn])
         if x < 0.85: return T('Cast', r.choice(CASTS), ch=[self.expr(d), self.kindnode() or NONE])
         if x < 0.88: return T('Concat', ch=[r.choice([T('StrLit', lit=r.choice(STRS)), self.symbol()]) for _ in range(2)])
@@ -243,10 +250,7 @@ class Gen:
         """another spelling of every identifier (names, keyword names); literals untouched"""
         k, name, z, lit, kws, ch = t
         r = self.rng
-        kw2 = []
-        for n in kws:
-            m = respell_name(r, n)
-            kw2.append(m if m not in kw2 else n)
+        kw2 = [respell_name(r, n) for n in kws]
         return [k, respell_name(r, name) if name else name, z, lit, kw2, [self.respell(c) for c in ch]]
 
     def nodes(self, t, path=()):
@@ -283,7 +287,7 @@ class Gen:
                 n[3] = r.choice(CMPOPS); return t
             if x < 0.95 and k in NARY and len(n[5]) >= 2 and not (k == 'Product' and n[5][0][0] == 'PyInt'):
                 n[5].reverse(); return t
-            if k == 'Call' and n[4]:
+            if k == 'Call' and n[4] and (n[4][0] + 'x').lower() not in [q.lower() for q in n[4]]:
                 n[4][0] = n[4][0] + 'x'; return t
         return t
 
@@ -375,17 +379,21 @@ def py_pairs(g):
     return (a, PyInt(r.choice([0, 1, -1, 5])))
 
 def pyconst_pairs(g):
-    """arithmetic over Python ints only (float() of such a node succeeds) against literals with a DIFFERENT value,
-    and against other nodes; the matching-value pairs are the known finding and are not generated"""
+    """arithmetic over Python numbers only (float() of such a node succeeds) against literals with the same or another value,
+    and against other nodes (before d84a976 the matching-value pairs were asymmetric, findings F6c/F6d)"""
     r = g.rng
     def ctree(d):
         if d == 0 or r.random() < 0.4: return PyInt(r.choice([1, 2, 3, 4, -1, -2, 7]))
         return T(r.choice(['Sum', 'Product', 'PAdd', 'PMul']), ch=[ctree(d - 1) for _ in range(r.choice([2, 2, 3]))])
-    c = T(r.choice(['Sum', 'Product', 'PAdd', 'PMul']), ch=[ctree(1) for _ in range(r.choice([2, 2, 3]))])
-    v = pyconst(c)
+    if r.random() < 0.25:
+        c = T(r.choice(['Quotient', 'PDiv', 'Power', 'PPow']), ch=[PyInt(r.choice([1, 2, 6, 8])), PyInt(r.choice([0, 1, 2, 2]))])
+        v = r.choice([1, 3, 4, 36, 64])
+    else:
+        c = T(r.choice(['Sum', 'Product', 'PAdd', 'PMul']), ch=[ctree(1) for _ in range(r.choice([2, 2, 3]))])
+        v = pyconst(c)
     x = r.random()
     if x < 0.4:
-        w = v + r.choice([1, -1, 2, 10])
+        w = v + r.choice([0, 0, 1, -1, 2, 10])
         other = FloatL(r.choice(['%d.0', '%d.', '%d.0e0', '%d.5']) % abs(w) if w >= 0 else '%d.25' % abs(w), g.kindnode())
     elif x < 0.6: other = IntL(r.choice([v, v + 1]), g.kindnode())
     elif x < 0.8: other = copy.deepcopy(c) if r.random() < 0.5 else T(c[0], ch=list(reversed(c[5])))
@@ -435,7 +443,7 @@ def introspect():
         return '?'
     table = {}
     for n, c in found.items():
-        sup = [k.__name__ for k in c.__mro__[1:] if k.__name__ in found and k.__name__ not in ABSTRACT]
+        sup = [k.__name__ for k in c.__mro__[1:] if found.get(k.__name__) is k and k.__name__ not in ABSTRACT]
         table[n] = (src(c, '__eq__'), src(c, '__hash__'), sup)
     return table
 
@@ -468,7 +476,7 @@ class C11(Property):
     id = 'C11'
     imports = ['models.M_C11']
     theorem_file = 'theories/props/T_C11.v'
-    shard = 120
+    shard = 400
     rule = ('pairs (and triples) of expression trees built programmatically from every node class of loki.expression (symbols with derived-type parents, '
             'arrays with subscripts and ranges, literals with kinds, operations incl. Parenthesised*, calls with keywords, casts, ranges, subscripts, '
             'literal lists, implied-do, references) plus Python int/str/None operands; families: respell (same tree, identifiers in another letter case), '
@@ -480,7 +488,7 @@ class C11(Property):
     modelled_not_verified = [
         'printing (LokiStringifyMapper/pymbolic StringifyMapper) is a hand-written model tied by comparing str(x) exactly on every generated tree; FloorDiv/Remainder/bitwise nodes and negative literals as first Product child (other than the Python int -1 and IntLiteral(-1)) are outside the generated class',
         'hash(x) is modelled by a key; equal keys <-> equal Python hashes is checked on every case under PYTHONHASHSEED=0 (64-bit collisions are ignored)',
-        'float(s)/int(s) on strings are modelled for [blanks][sign]digits[.digits][(e|E)[sign]digits] resp. [blanks][sign]digits (<= 15 significant digits); float(node) (pymbolic Expression.__float__) is modelled for sums/products of Python ints, Quotient/Power of Python numbers only are never generated',
+        'float(s)/int(s) on strings are modelled for [blanks][sign]digits[.digits][(e|E)[sign]digits] resp. [blanks][sign]digits (<= 15 significant digits)',
         "config['case-sensitive'] is False (the default); Python float/bool/complex operands are not generated",
         'the identity short-cuts (a is b) of pymbolic and of dict lookup are not exercised: the two operands are always distinct objects',
     ]
@@ -489,7 +497,7 @@ class C11(Property):
     def generate(self, rng, tier):
         yield {'kind': 'class-table'}
         g = Gen(rng)
-        n = 2600 if tier == 'quick' else 30000
+        n = 1200 if tier == 'quick' else 8000
         fams = [f for f, w in FAMILIES for _ in range(w)]
         for _ in range(n):
             fam = rng.choice(fams)
@@ -518,7 +526,7 @@ class C11(Property):
                 a = g.expr(depth)
                 c = rng.choice([g.mutate(a), g.respell(a), g.expr(depth), g.respell(g.mutate(a))])
                 case = {'kind': 'triple', 'a': a, 'b': g.respell(a), 'c': c}
-            if any(has_unmodelled_eval(case[k]) for k in ('a', 'b', 'c') if k in case):
+            if any(ill_typed(case[k]) for k in ('a', 'b', 'c') if k in case):
                 continue
             yield case
 
@@ -562,11 +570,19 @@ class C11(Property):
                     raise ValueError('class %s takes __eq__ from %s and __hash__ from %s: not in the model' % (n, e, h))
                 rows.append('(%s, %s, %s, [%s])' % (CLS_TERM[n], ESRC[e], HSRC[h], '; '.join(CLS_TERM[s] for s in sup)))
             return '(chk_class_table [%s])' % '; '.join(rows)
-        t = self._pair_term(case['a'], case['b'], out['p'], out['sa'], out['sb'])
-        if 'c' in case:
-            t = '(%s && %s && %s)' % (t, self._pair_term(case['a'], case['c'], out['ac'], None, out['sc']),
-                                      self._pair_term(case['b'], case['c'], out['bc'], None, None))
-        return t
+        if 'c' not in case:
+            return self._pair_term(case['a'], case['b'], out['p'], out['sa'], out['sb'])
+        # triple: bind the three trees once
+        for q in (out['p'], out['ac'], out['bc']):
+            for k in ('ab', 'ba', 'hh', 'in'):
+                if not isinstance(q[k], bool):
+                    raise ValueError('the implementation raised/returned a non-bool: %s=%r' % (k, q[k]))
+        def pt(x, y, q, sx, sy):
+            return coq(C('chk_pair', Raw(x), Raw(y), q['ab'], q['ba'], q['hh'], q['in'],
+                         Some(sx) if sx is not None else None, Some(sy) if sy is not None else None))
+        return '(let ta := %s in let tb := %s in let tc := %s in %s && %s && %s)' % (
+            coq(coq_tree(case['a'])), coq(coq_tree(case['b'])), coq(coq_tree(case['c'])),
+            pt('ta', 'tb', out['p'], out['sa'], out['sb']), pt('ta', 'tc', out['ac'], None, out['sc']), pt('tb', 'tc', out['bc'], None, None))
 
     def show_model(self, case, out):
         if case['kind'] == 'class-table':
